@@ -9,7 +9,9 @@ PLAIN = [("x / 0", "ZeroDivisionError"), ("[1][5]", "IndexOutOfBoundsError"), ("
          # the failing operator has an operand the optimizer folds to a new literal (integers, strings, builtin calls, unary)
          ("10 * 2 / (x - x)", "ZeroDivisionError"), ("(1 + 2) % (x - x)", "ZeroDivisionError"), ("x / (3 - 3)", "ZeroDivisionError"), ("(\"a\" + \"b\") - x", "TypeError"),
          ("len(\"ab\") / (x - x)", "ZeroDivisionError"), ("-(2) % (x - x)", "ZeroDivisionError"), ("[1, 2][1 + 4]", "IndexOutOfBoundsError"), ("(1 << 3 | 1) / (x - x)", "ZeroDivisionError"),
-         ("(2.5 * 2.0) - \"s\" + x", "TypeError")]
+         ("(2.5 * 2.0) - \"s\" + x", "TypeError"),
+         # Go functions of a module that report failure as a plain Go error, a uGO error, or by panicking inside the call
+         ("T.ParseDuration(\"zz\")", None), ("T.Parse(\"2006\", \"x\")", None), ("T.LoadLocation(\"No/Such\")", None), ("S.Map(x, \"a\")", None)]
 FAILS = PLAIN + [
          # a literal constant as operand: the optimizer substitutes it
          ("c9 / (x - x)", "ZeroDivisionError"), ("c9 % (x - x)", "ZeroDivisionError"), ("cs9 - x", "TypeError"), ("(x - x) / c0", "ZeroDivisionError")]
@@ -25,8 +27,9 @@ def build(rng, depth, k, in_module):
     consts = list(CONSTS) if use_consts else []
     kind = rng.randrange(3)
     rec = rng.choice([0, 0, 1, 2, 3]) if (depth >= 2 and not in_module) else 0
-    use_cb = rng.random() < .4
+    use_cb = rng.random() < .4 or "S." in failexpr
     if use_cb: consts = ["S := import(\"strings\")"] + consts
+    if "T." in failexpr: consts = ["T := import(\"time\")"] + consts
     cb_lines = set()
     def filler(lines):
         for _ in range(rng.randrange(0, 3)):
@@ -175,7 +178,7 @@ def run(rep, br, proofs, rng, tier):
             rep.violation({"property": "C16", "kind": "correspondence", "why": "line table model (Pos/LineTable.v unpack) and SourceFileSet.Position disagree", "case": m["line"][:1500], "impl": m["expect"], "model": model.get(m["id"])}, found=False)
     rep.coverage.update({
         "evaluations": len(cases) + len(mcases), "distinct_nontrivial": ok,
-        "rule": "generated one-statement-per-line layouts (random blank lines, line comments, block comments before, after and across statements, filler declarations, literal constants as operands of the failing operator) in which an error (failing operator, failing builtin, bad index, call of a non-callable, wrong argument count, thrown value) escapes from call depth 0,1,2,3,5,8, in the main file, inside a function of an imported source module or while a module body runs during its import (made at top level or inside a function), optionally through 1-3 recursive activations of one call site, x optimizer on/off x encode/decode x k prepended blank lines; expected lines computed by the generator; positions must lie inside the named file; real line tables and sampled offsets re-resolved by the Coq unpack; non-trivial = a trace was produced and matched",
+        "rule": "generated one-statement-per-line layouts (random blank lines, line comments, block comments before, after and across statements, filler declarations, literal constants as operands of the failing operator) in which an error (failing operator, failing builtin, failing functions of the time and strings modules (plain Go errors), bad index, call of a non-callable, wrong argument count, thrown value) escapes from call depth 0,1,2,3,5,8, in the main file, inside a function of an imported source module or while a module body runs during its import (made at top level or inside a function), optionally through 1-3 recursive activations of one call site, x optimizer on/off x encode/decode x k prepended blank lines; expected lines computed by the generator; positions must lie inside the named file; real line tables and sampled offsets re-resolved by the Coq unpack; non-trivial = a trace was produced and matched",
         "samples": [cases[0]["src"], str(cases[0]["expected"])],
         "traces_matched": ok, "unpack_compared": len(mcases), "disagreements": len(dis), "oracle_failures": len(fails)})
 
